@@ -233,6 +233,23 @@ pub fn run(rep: &Report) -> serde_json::Value {
             }
         }
     }
+    // F8: every script of <= 3 operations on one fragment assembler (headers and continuations with small, equal, shrinking,
+    // growing and 64-bit-wide counts and ids, a header with a cache section, cleanup, clear)
+    {
+        let ops: Vec<[u8; 2]> = (0..3u8).flat_map(|k| (0..crate::probe::FRAG_VALUES.len() as u8).map(move |v| [k, v])).chain([[3u8, 0], [4, 0]]).collect();
+        let mut scripts: Vec<Vec<u8>> = vec![];
+        for a in &ops { scripts.push(a.to_vec()); for b in &ops { scripts.push([&a[..], &b[..]].concat()); for c in &ops { scripts.push([&a[..], &b[..], &c[..]].concat()); } } }
+        for sc in scripts { inputs.push(Input { family: "F8-assembler-scripts", entry: 9, bytes: sc, inflated: 0, over_declared: false, depth: 0 }); }
+    }
+    // F9: distribution headers announcing one entry in every segment at low, middle and top indices (and two in one header)
+    for seg in 0..8u8 {
+        for idx in [0u8, 1, 127, 246, 247, 248, 254, 255] {
+            let mut b = vec![131u8, 68, 1, 0x08 | seg, idx, 1, b'a', 82, 0];
+            for &e in &[2u8, 5, 8] { inputs.push(Input { family: "F9-header-slots", entry: e, bytes: b.clone(), inflated: 0, over_declared: false, depth: 0 }); }
+            b = vec![131u8, 68, 2, (0x08 | seg) | ((0x08 | (7 - seg)) << 4), 0, idx, 1, b'a', 255 - idx, 1, b'b', 104, 2, 82, 0, 82, 1];
+            for &e in &[2u8, 5, 8] { inputs.push(Input { family: "F9-header-slots", entry: e, bytes: b.clone(), inflated: 0, over_declared: false, depth: 0 }); }
+        }
+    }
     let corp = c13::corpus(false);
     let short: Vec<&Vec<u8>> = corp.iter().filter(|b| b.len() <= if thorough { 64 } else { 40 }).collect();
     for b in &short {
@@ -318,7 +335,7 @@ pub fn run(rep: &Report) -> serde_json::Value {
     json!({
         "evaluations": rep.get("evaluations"),
         "distinct_nontrivial": distinct.len(),
-        "rule": "finite families each enumerated completely and run through 9 decode entry points in supervised child processes on a 2 MiB-stack thread with a counting allocator: F1 every tag x boundary values of one/two length fields x 4 tails (+ structured fun/ref/header counts), F2 21 nesting paths (containers, fun environment, LOCAL_EXT, and the node/module/creator fields of every identifier and fun tag, which are read as terms) x depth 2^k, F3 every truncation of short corpus encodings, F4 byte mutations, F5 splices, F6 compressed sections (declared vs actual size, bombs, corrupt, nested up to 300 deep), F7 fragment header prefixes; oracle: outcome in {ok,err}, peak requested bytes <= 512*(len+inflated) [a one-entry BTreeMap node is ~1.8 KB for 6 input bytes]+256KiB (zlib inflater state alone is ~90 KiB), inflated>declared => Err; distinct_nontrivial = distinct (entry,input) longer than 2 bytes",
+        "rule": "finite families each enumerated completely and run through 10 entry points in supervised child processes on a 2 MiB-stack thread with a counting allocator: F1 every tag x boundary values of one/two length fields x 4 tails (+ structured fun/ref/header counts), F2 21 nesting paths (containers, fun environment, LOCAL_EXT, and the node/module/creator fields of every identifier and fun tag, which are read as terms) x depth 2^k, F3 every truncation of short corpus encodings, F4 byte mutations, F5 splices, F6 compressed sections (declared vs actual size, bombs, corrupt, nested up to 300 deep), F7 fragment header prefixes, F8 all scripts of <= 3 operations on a fragment assembler (26 operations), F9 distribution headers announcing entries in every segment at eight indices; oracle: outcome in {ok,err}, peak requested bytes <= 512*(len+inflated) [a one-entry BTreeMap node is ~1.8 KB for 6 input bytes]+256KiB (zlib inflater state alone is ~90 KiB), inflated>declared => Err; distinct_nontrivial = distinct (entry,input) longer than 2 bytes",
         "exhaustive": true,
         "families": fam,
         "outcomes": outcomes,
